@@ -34,6 +34,20 @@ func init() {
 		if want := os.Getenv("JSVERIF_EVAL_CALLS"); want != "" {
 			ev.WantCall = func(fn *ssa.Function) bool { return strings.Contains(fn.String(), want) }
 		}
+		if op := os.Getenv("JSVERIF_EVAL_OPAQUE"); op != "" {
+			// functions whose names contain one of the comma-separated substrings are not followed
+			ev.Follow = func(fn *ssa.Function) bool {
+				if !inModule(fn) {
+					return false
+				}
+				for _, s := range strings.Split(op, ",") {
+					if strings.Contains(fn.String(), s) {
+						return false
+					}
+				}
+				return true
+			}
+		}
 		for i, o := range ev.Run(sf, args) {
 			fmt.Printf("--- path %d  incomplete=%q panics=%v\n", i, o.Incomplete, o.Panics)
 			for _, cd := range o.Conds {
